@@ -10,7 +10,8 @@ ROOT = os.path.dirname(os.path.dirname(os.path.abspath(__file__)))
 def main():
     rp = json.load(open(sys.argv[1]))
     if os.environ.get("_VF_REPLAY_CHILD") != "1":
-        env = dict(os.environ, PYTHONHASHSEED=str(rp.get("hashseed", 0)), _VF_REPLAY_CHILD="1", PYTHONPATH=ROOT, GENLM_GRAMMAR_VERIF="1")
+        alt = os.environ.get("VERIF_REPO")
+        env = dict(os.environ, PYTHONHASHSEED=str(rp.get("hashseed", 0)), _VF_REPLAY_CHILD="1", PYTHONPATH=(alt + ":" if alt else "") + ROOT, GENLM_GRAMMAR_VERIF="1")
         sys.exit(subprocess.call([sys.executable, "-m", "vf.replay", sys.argv[1]], env=env, cwd=ROOT))
     import warnings
 
